@@ -98,6 +98,31 @@ func probes(c *hx.Ctx) {
 		tr("ONT", false, dl+50, []string{Y}, jTS{Y, Z, "1"}),
 		tr("ONT", false, dl-50, []string{X}, jTS{X, Y, "1"}),
 	}})
+	// contract call chains: entry script E -> vault V -> plugin P -> token contract.  Only the
+	// immediate caller authorizes; the vault further down the stack does not.
+	E, V, P, Q := "00000000000000000000000000000000000000e1", hexOf(small(0x31)), hexOf(small(0x32)), hexOf(small(0x33))
+	chain := base()
+	chain.Bal["ONT"] = append(chain.Bal["ONT"], jBal{V, units(500)}, jBal{P, units(5)})
+	chain.Bal["ONG"] = append(chain.Bal["ONG"], jBal{V, units(900)}, jBal{P, "17"})
+	chain.Allow["ONT"] = append(chain.Allow["ONT"], jAllow{X, V, units(20)})
+	on := func(k jCall, stack ...string) jCall { k.Stack = stack; return k }
+	seqs = append(seqs, jSeq{Mode: "direct", Net: net, Init: chain, Calls: []jCall{
+		on(tr("ONT", false, dl-50, []string{X}, jTS{V, X, "100"}), E, V, P), // plugin drains vault: refused
+		on(tr("ONG", true, dl-50, nil, jTS{V, P, "1000000007"}), E, V, P),   // same on ONG
+		on(ap("ONT", true, dl-50, []string{Y}, V, P, units(400)), E, V, P),  // allowance on the vault's behalf: refused
+		on(ap("ONG", false, dl-50, nil, V, P, "400"), E, V, P),
+		on(tr("ONT", true, dl-50, nil, jTS{V, X, units(1)}), E, V, P, Q),          // depth 4
+		on(tr("ONT", true, dl-50, nil, jTS{V, X, units(1)}), V, E, P, Q),          // vault at the bottom
+		on(tf("ONT", false, dl-50, nil, "", V, X, P, "3"), E, V, P),               // vault as spender, indirect: refused
+		on(tr("ONT", false, dl-50, nil, jTS{V, X, "100"}), E, V),                  // vault calls the token contract itself: ok
+		on(tf("ONT", false, dl-50, nil, "", V, X, P, "3"), E, V),                  // vault spends its allowance itself: ok
+		on(tr("ONT", false, dl-40, nil, jTS{P, X, "2"}), E, V, P),                 // plugin moves its own tokens: ok
+		on(tr("ONG", true, dl-40, nil, jTS{P, V, "17"}, jTS{V, P, "1"}), E, V, P), // second movement refused, whole call fails
+		on(tr("ONT", false, dl-40, []string{X}, jTS{X, V, "1"}), E, V, P),         // a signer is a witness at any depth
+		on(ap("ONT", false, dl-40, nil, V, P, "9"), E, V),
+		on(tr("ONT", false, dl+60, nil, jTS{V, Y, "1"}), E, V),    // after the deadline: nested ONT -> ONG payout to V and Y
+		on(tr("ONT", false, dl+70, nil, jTS{V, Y, "1"}), E, V, P), // still refused
+	}})
 	for i := range seqs {
 		c.Count("probe")
 		runDirect(c, &seqs[i], nil, 0)
